@@ -72,9 +72,10 @@ pub struct Op {
 // "MID_Ａ" / "MID_ア": code-point order and Shift-JIS byte order disagree for this pair
 const POOL: &[&str] = &["X", "Y", "Count", "名前", "", "x y", "ｱ", "Info", "MID_Ａ", "MID_ア"];
 
-fn gen_cfg(_prop: &str, _tier: Tier, run_seed: u64) -> Value {
+fn gen_cfg(_prop: &str, tier: Tier, run_seed: u64) -> Value {
     let mut r = Rng::sub(run_seed, "cfg");
-    json!({ "big": r.chance(1, 2), "builders": r.range(3, 6) })
+    let hi = if tier == Tier::Thorough { 8 } else { 6 };
+    json!({ "big": r.chance(1, 2), "builders": r.range(3, hi) })
 }
 
 fn shrink_cfg(cfg: &Value) -> Vec<Value> {
